@@ -266,6 +266,9 @@ def rule_lsbud(ctx: Ctx) -> List[Ob]:
     ut = usertaint(ctx)
     obs: List[Ob] = []
     loops = [s for s in walk_no_nested(f.node) if isinstance(s, ast.While)]
+    # the trial loop is the outermost one; a loop nested in it is part of its body (and must respect the same budget)
+    inner = {id(x) for lp_ in loops for b_ in lp_.body + lp_.orelse for x in ast.walk(b_) if isinstance(x, ast.While)}
+    loops = [lp_ for lp_ in loops if id(lp_) not in inner]
     need(len(loops) == 1, "line_search: expected one trial loop")
     lp = loops[0]
     # Budget argument, on paths:  (1) the counter is 0 before the loop and only ever incremented by one;  (2) an
